@@ -239,7 +239,14 @@ type extBlock struct {
 }
 
 func (ind *fileBuilder) printExtension(block extBlock) error {
-	ind.p("extend ", block.extends, " {")
+	// the extended message is named like any other type: relative to this file,
+	// with a leading dot when the plain name would be captured
+	first := block.fields[0]
+	extends, err := contextRefName(first.Parent(), first.ContainingMessage())
+	if err != nil {
+		return err
+	}
+	ind.p("extend ", extends, " {")
 	ind2 := ind.indent()
 	for _, extField := range block.fields {
 		if err := ind2.printField(extField); err != nil {
